@@ -122,10 +122,31 @@ class _Subst(ast.NodeTransformer):
         return node
 
 
+def _unguard(stmts):
+    """`if c: return` (bare) followed by the rest  ->  `if not c: <rest>` (recursively), so that a
+    procedure written with guard clauses becomes return-free."""
+    out = []
+    for i, st in enumerate(stmts):
+        if isinstance(st, ast.If) and not st.orelse and len(st.body) == 1 and isinstance(st.body[0], ast.Return) \
+                and st.body[0].value is None and i + 1 < len(stmts):
+            rest = _unguard(stmts[i + 1:])
+            test = st.test.operand if isinstance(st.test, ast.UnaryOp) and isinstance(st.test.op, ast.Not) \
+                else ast.UnaryOp(op=ast.Not(), operand=st.test)
+            out.append(ast.copy_location(ast.If(test=test, body=rest, orelse=[]), st))
+            return out
+        out.append(st)
+    return out
+
+
 def _helper_kind(fn):
     body = _strip_doc(fn.body)
     if not body:
         return None, None
+    if not any(isinstance(x, ast.Return) and x.value is not None for x in ast.walk(fn)):
+        body = _unguard(body)
+        if any(isinstance(x, ast.Return) for st in body for x in ast.walk(st)
+               if not (st is body[-1] and isinstance(st, ast.Return))):
+            body = _strip_doc(fn.body)
     if any(isinstance(x, (ast.Yield, ast.YieldFrom)) for x in ast.walk(fn)):
         return None, None
     if any(isinstance(x, (ast.FunctionDef, ast.AsyncFunctionDef, ast.Lambda, ast.Global, ast.Nonlocal))
@@ -145,7 +166,7 @@ def _helper_kind(fn):
     valued = [r for r in rets if r.value is not None]
     if not valued:
         # procedure: only a trailing bare return is tolerated
-        bare = [r for r in rets]
+        bare = [x for st in body for x in ast.walk(st) if isinstance(x, ast.Return)]
         if not bare or (len(bare) == 1 and body[-1] is bare[0]):
             return 'proc', [s for s in body if not (isinstance(s, ast.Return))]
         return None, None
